@@ -69,21 +69,21 @@ int layout::property(struct property *pr) const
 	else if (!*name) {
 		pr->name = "layout";
 		pr->desc = "mpt layout data";
-		pr->set(_alias);
+		pr->set(static_cast<const char *>(_alias));
 		return 0;
 	}
 	int id = 0;
 	if (name ? (!strcasecmp(name, "alias") || !strcasecmp(name, "name")) : pos == id++) {
 		pr->name = "alias";
 		pr->desc = "layout alias";
-		pr->set(_alias);
+		pr->set(static_cast<const char *>(_alias));
 		
 		return _alias ? strlen(_alias) : 0;
 	}
 	if (name ? !strcasecmp(name, "font") : pos == id++) {
 		pr->name = "font";
 		pr->desc = "layout default font";
-		pr->set(_font);
+		pr->set(static_cast<const char *>(_font));
 		
 		return _font ? strlen(_font) : 0;
 	}
